@@ -208,13 +208,15 @@ def step (g : Guard) (i : Input) (np : Nat) : Step :=
   -- the algorithm proper starts here
   | .body => .stop ⟨.proceed, .body⟩
 
+/-- Leave with `r`, or go on with the rest of the list. -/
+def Step.bind : Step → (Nat → Result) → Result
+  | .stop r, _ => r
+  | .next np, k => k np
+
 /-- A guard list as a decision list: the first guard that fires decides. -/
 def eval : List Guard → Input → Nat → Result
   | [], _, _ => ⟨.fellOff, .none⟩
-  | g :: gs, i, np =>
-    match step g i np with
-    | .stop r => r
-    | .next np' => eval gs i np'
+  | g :: gs, i, np => (step g i np).bind (eval gs i)
 
 /-- The eleven entry points. -/
 inductive Algo where
